@@ -9,7 +9,7 @@ package lang
 // integers are injective on the values of their type; these are the parameters the code must pass.
 // ---------------------------------------------------------------------------------------------
 //@ func reprOfValue
-//@   property C15
+//@   property C15 C17
 //@   call FormatFloat#0: assert arg_fmt == 'f' && arg_prec == -1 && arg_bitSize == 32
 //@   call FormatFloat#1: assert arg_fmt == 'f' && arg_prec == -1 && arg_bitSize == 64
 //@   call FormatInt#*: assert arg_base == 10
